@@ -7,7 +7,7 @@ knowledge models it requires, invoked by literal expression) and a fourth that r
 invocation over a random subset of the inputs, of the EARLIER decisions (so diamonds, a decision required directly and through another),
 of the knowledge models and of the earlier decision services (called as functions with positional arguments), and 2 decision services (one
 output or two, encapsulated decisions, input data, optionally an input decision). Every decision and service is invoked by name with two
-input contexts - the inputs alone, and the inputs plus entries whose names occur in no requirement closure - and compared with a reference
+input contexts (plus, in every model, a service called by a boxed invocation that leaves one of its inputs unbound, and a decision that requires a decision and an input data sharing a variable name) - the inputs alone, and the inputs plus entries whose names occur in no requirement closure - and compared with a reference
 evaluation of the same graph in topological order written here (integers, distinct prime weights, so that a value wired to the wrong
 name, evaluated over the wrong context or dropped shows in the result).
 prints `reqgraphdiff cases=N failures=M`; exit 0 / 2."""
@@ -110,6 +110,10 @@ def gen(seed):
     # a sink decision whose logic is a boxed relation: columns named like an input and like a required decision; every cell is evaluated over
     # the decision's own context, so `In A` in the second cell is the input, not the first cell
     m.rel = {'w': [rnd.choice(PRIMES) for _ in range(3)], 'dec': 'Dec 1'}
+    # appendix (the same shape in every model, random weights): a service called by a boxed invocation that binds only ONE of its two inputs while
+    # the caller has the other under the same name (unbound = null inside the service); a decision that requires a decision and an input data
+    # whose variables share a name (nothing supplied under it: the required decision's own value)
+    m.app = {'w': [rnd.choice(PRIMES) for _ in range(6)]}
     return m
 
 
@@ -198,6 +202,18 @@ def xml(m):
     rows = ''.join('<row>' + ''.join('<literalExpression><text>%s</text></literalExpression>' % c for c in r) + '</row>' for r in cells)
     out.append('  <decision name="Rel" id="_Rel"><variable name="Rel"/><informationRequirement><requiredInput href="#_In_A"/></informationRequirement><informationRequirement><requiredInput href="#_In_B"/></informationRequirement>'
                '<informationRequirement><requiredDecision href="#_Dec_1"/></informationRequirement><relation><column name="In A"/><column name="Dec 1"/><column name="total"/>%s</relation></decision>' % rows)
+    a = m.app['w']
+    req_in = lambda *ids: ''.join('<informationRequirement><requiredInput href="#%s"/></informationRequirement>' % i for i in ids)
+    out.append('  <decision name="Pick" id="_Pick"><variable name="Pick"/>%s<literalExpression><text>if In A = null then In B * %d else In A * %d + In B</text></literalExpression></decision>' % (req_in('_In_A', '_In_B'), a[0], a[1]))
+    out.append('  <decisionService name="Picking" id="_Picking"><variable name="Picking"/><outputDecision href="#_Pick"/><inputData href="#_In_A"/><inputData href="#_In_B"/></decisionService>')
+    out.append('  <decision name="Half Caller" id="_Half_Caller"><variable name="Half Caller"/>%s<knowledgeRequirement><requiredKnowledge href="#_Picking"/></knowledgeRequirement>'
+               '<invocation><literalExpression><text>Picking</text></literalExpression><binding><parameter name="In B"/><literalExpression><text>In A * %d</text></literalExpression></binding></invocation></decision>' % (req_in('_In_A'), a[2]))
+    out.append('  <inputData name="Cap input" id="_Cap_input"><variable name="Cap" typeRef="number"/></inputData>')
+    out.append('  <decision name="Cap" id="_Cap"><variable name="Cap" typeRef="number"/>%s<literalExpression><text>In A * %d + 1</text></literalExpression></decision>' % (req_in('_In_A'), a[3]))
+    out.append('  <decision name="Cap Check" id="_Cap_Check"><variable name="Cap Check"/><informationRequirement><requiredDecision href="#_Cap"/></informationRequirement>%s'
+               '<literalExpression><text>if Cap = null then -1 else Cap * %d</text></literalExpression></decision>' % (req_in('_Cap_input'), a[4]))
+    out.append('  <decision name="Cap Report" id="_Cap_Report"><variable name="Cap Report"/><informationRequirement><requiredDecision href="#_Cap_Check"/></informationRequirement>'
+               '<literalExpression><text>Cap Check + %d</text></literalExpression></decision>' % a[5])
     out.append('</definitions>')
     return '\n'.join(out)
 
@@ -316,6 +332,16 @@ def main():
                 g = got.get(('Rel', c))
                 if g != want:
                     fails.append('model %d (seed %d) Rel (boxed relation) with %s => %s (expected %s)' % (k, seed, c, (g or 'no answer')[:120], want))
+            a_ = m.app['w']
+            cap = inp['In A'] * a_[3] + 1
+            appendix = {'Pick': inp['In A'] * a_[1] + inp['In B'], 'Picking': inp['In A'] * a_[1] + inp['In B'], 'Half Caller': inp['In A'] * a_[2] * a_[0],
+                        'Cap': cap, 'Cap Check': cap * a_[4], 'Cap Report': cap * a_[4] + a_[5]}
+            for c in (base, extra):
+                for (name, want) in appendix.items():
+                    cases += 1
+                    g = got.get((name, c))
+                    if g != str(want):
+                        fails.append('model %d (seed %d) %s (appendix: a service called with one input unbound / a decision and an input sharing a name) with %s => %s (expected %d)' % (k, seed, name, c, (g or 'no answer')[:80], want))
             for name in m.order:
                 if name in m.svc and m.svc[name]['indec']:
                     cases += 1
